@@ -68,7 +68,8 @@ func isLoopHeader(b *ssa.BasicBlock) bool {
 }
 
 func (vc *VC) newAct(fn *ssa.Function, parent *Act) *Act {
-	a := &Act{fn: fn, env: map[ssa.Value]Val{}, in: map[*ssa.BasicBlock][]inEdge{}, parent: parent, phiOver: map[*ssa.Phi]Val{}, lets: map[string]TV{}, mayPanic: map[string]bool{}}
+	a := &Act{fn: fn, env: map[ssa.Value]Val{}, in: map[*ssa.BasicBlock][]inEdge{}, parent: parent, phiOver: map[*ssa.Phi]Val{}, lets: map[string]TV{}, mayPanic: map[string]bool{}, loopFrameOf: map[*ssa.BasicBlock]*loopFrame{}}
+	a.baseFrames = append([]loopFrame{}, vc.loopFrames...)
 	if parent != nil {
 		a.depth = parent.depth + 1
 	}
@@ -144,8 +145,16 @@ func (vc *VC) runBody(act *Act, st *State) {
 				act.env[phi] = v
 			}
 		}
+		// loop frames active in this block
+		vc.loopFrames = append([]loopFrame{}, act.baseFrames...)
+		for _, h := range order {
+			if lf, ok := act.loopFrameOf[h]; ok && loopBody(h)[b] {
+				vc.loopFrames = append(vc.loopFrames, *lf)
+			}
+		}
 		vc.execBlock(act, b, cur, 0)
 	}
+	vc.loopFrames = append([]loopFrame{}, act.baseFrames...)
 	// back edges: invariant preservation
 	for _, b := range order {
 		if !isLoopHeader(b) {
@@ -327,6 +336,8 @@ func (vc *VC) cutLoop(act *Act, h *ssa.BasicBlock, st *State, phiVals map[*ssa.P
 		if everything {
 			vc.havocLoopAll(act, ns, st, lf)
 		} else {
+			vc.callFrameCheck(act, st, items, fmt.Sprintf("loop%d", ordinal), h.Instrs[0])
+			act.loopFrameOf[h] = &loopFrame{items: items, top: st.top, name: lc.Key}
 			vc.havocItems(ns, items, ghosts)
 			vc.havocLocals(ns, lf, act)
 		}
